@@ -539,7 +539,7 @@ def gen_root(rng, depth, opts, pin=False):
     return pg.compact_prog(bld.nodes)
 
 
-def gen_structures(rng, tier, jets_c, jets_e, n_rand=None, n_poly=None):
+def gen_structures(rng, tier, jets_c, jets_e, n_rand=None, n_poly=None, jet1=True):
     """list of (family, time, fam, prog) before witnesses are filled"""
     out = []
     for name, p in fixed_programs():
@@ -586,6 +586,13 @@ def gen_structures(rng, tier, jets_c, jets_e, n_rand=None, n_poly=None):
         out.append(("poly", "c", "c", p))
     if n_rand:
         out += wpad_structures(rng, tier, jets_c)
+    if jet1:
+        # every jet of both families once: 1 -witness-> A -jet-> B -unit-> 1 (a change to one jet's code is
+        # found with a concrete program, not only by the regenerated table proofs)
+        for fam, jets in (("c", jets_c), ("e", jets_e)):
+            for j in jets:
+                if pg.width(j[2]) <= 4096:
+                    out.append(("jet1", "r", fam, [("wit", None), ("jet", fam, j[1]), ("comp", 0, 1), ("unit",), ("comp", 2, 3)]))
     return out
 
 
@@ -597,7 +604,7 @@ def load_corpus():
             if fn.endswith(".case"):
                 for line in open(os.path.join(d, fn)):
                     t = line.split()
-                    if len(t) >= 4 and not line.startswith("#"):
+                    if len(t) >= 3 and not line.startswith("#"):
                         out.append((fn, t[0], t[1], t[2]))   # time, fam, pdl
     return out
 
@@ -632,13 +639,18 @@ def pdl_to_prog(pdl):
     return out
 
 
-def make_cases(rng, tier, binary, workdir, n_rand=None, n_poly=None, corpus=True):
+_JTY = {}
+
+
+def make_cases(rng, tier, binary, workdir, n_rand=None, n_poly=None, corpus=True, jet1=True):
     jets_c = pg.jet_list(binary, "c", workdir)
     jets_e = pg.jet_list(binary, "e", workdir)
+    _JTY.update({("c", j[1]): (j[2], j[3]) for j in jets_c})
+    _JTY.update({("e", j[1]): (j[2], j[3]) for j in jets_e})
     jidx = {("c", j[1]): j[0] for j in jets_c}
     jidx.update({("e", j[1]): j[0] for j in jets_e})
     structs = [("corpus:" + fn, tm, fam, pdl_to_prog(pdl)) for fn, tm, fam, pdl in load_corpus()] if corpus else []
-    structs += gen_structures(rng, tier, jets_c, jets_e, n_rand, n_poly)
+    structs += gen_structures(rng, tier, jets_c, jets_e, n_rand, n_poly, jet1=jet1)
     aliases = {}
     if n_poly is None or n_poly > 0:
         for name, p, alias in twin_assert_programs(binary, workdir):
@@ -756,8 +768,8 @@ _JT = {}
 _JIDX = {}
 _TIER = ["quick"]
 # how many cases per generator family are also evaluated in the Coq model (all of them in the thorough tier)
-_MODEL_LIMIT = {"quick": {"rand": 130, "dup": 60, "pin": 50, "wpad": 50, "poly": 12, "*": 10 ** 9},
-                "thorough": {"rand": 2200, "dup": 700, "pin": 700, "wpad": 700, "poly": 100, "*": 10 ** 9}}
+_MODEL_LIMIT = {"quick": {"rand": 110, "dup": 50, "pin": 36, "wpad": 36, "poly": 12, "jet1": 20, "*": 10 ** 9},
+                "thorough": {"rand": 2200, "dup": 700, "pin": 700, "wpad": 700, "poly": 100, "jet1": 900, "*": 10 ** 9}}
 
 
 def witness_clause(m, d, order):
@@ -850,6 +862,64 @@ def prop_check(c, r):
     return pending
 
 
+# ------------------------------------------------------------------ roots of the decoded program (kind rr)
+_RR_LIMIT = {"quick": {"fixed": 12, "twin": 4, "poly": 4, "rand": 16, "dup": 8, "pin": 8, "wpad": 8, "jet1": 8, "corpus": 4},
+             "thorough": {"fixed": 40, "twin": 12, "poly": 30, "rand": 300, "dup": 120, "pin": 120, "wpad": 100, "jet1": 200, "corpus": 50}}
+
+
+def roots_cases(cases, full, tier):
+    """sample of the redemption-time cases: the Coq model decodes, re-infers (C04 reference) and hashes (SHA-256
+    in Coq, about 0.15 ms per compression) every node of the decoded program; the implementation prints CMR, IHR,
+    AMR and arrow of every node of the decoded RedeemNode, libsimplicity its root values"""
+    out = []
+    count = {}
+    lim = _RR_LIMIT[tier]
+    for c in cases:
+        m = c.meta
+        if m["time"] != "r" or len(m["prog"]) > (50 if tier == "quick" else 120):
+            continue
+        d = parse_result(full.get(c.cid))
+        if d.get("status") != "ok" or d.get("decode") is not None:
+            continue
+        if sum(len(n[1][-1]) for n in m["prog"] if n[0] == "wit" and n[1] is not None) > 1500:
+            continue
+        fam = m["family"].split(":")[0]
+        # Elements programs first within a family (three-way with libsimplicity)
+        count[fam] = count.get(fam, 0) + 1
+        if count[fam] > lim.get(fam, 5):
+            continue
+        t = c.line.split()
+        line = "%s %s %s" % (t[1], t[2], t[3] if len(t) > 3 else "-")
+        out.append(Case("r" + c.cid, "rr", line, cc.c01_roots_expr(m, _JIDX, _JTY), m))
+    return out
+
+
+def rr_check(c, r):
+    m = c.meta
+    d = cc.parse_rr(r)
+    if d["status"] != "ok":
+        return ("roots-run", "encode/decode for the roots comparison failed: %s" % (d,))
+    # the property, on the implementation: same arrow at every node (decoded node k = original node order[k])
+    dn, order = cc.linearise(m["prog"], m["arrows"], "r", _JIDX, alias=m.get("hid_alias"))
+    if len(order) != len(d["nodes"]):
+        return ("decoded-node-count", "%d decoded nodes, %d expected" % (len(d["nodes"]), len(order)))
+    if not ihr_collision(m):
+        for k, i in enumerate(order):
+            a = m["arrows"][i]
+            nd = d["nodes"][k]
+            if (a is None) != (nd[0] == 5) or (a is not None and (nd[4], nd[5]) != a):
+                return ("decoded-arrow-differs", "decoded node %d has arrow %s -> %s, the original node %d has %s" % (
+                    k, nd[4] and pg.ty_str(nd[4]), nd[5] and pg.ty_str(nd[5]), i, a and (pg.ty_str(a[0]), pg.ty_str(a[1]))))
+    cpart = d["c"]
+    if cpart and cpart[0] == 1:
+        root = d["nodes"][-1]
+        if (cpart[1:33], cpart[33:65], cpart[65:97]) != (root[1], root[2], root[3]):
+            return ("libsimplicity-roots-differ", "libsimplicity computes different root values (cmr/ihr/amr) for the serialised program")
+    elif cpart and cpart[0] >= 10 and not (cpart[0] == 16 and any(n[0] == "fail" for n in m["prog"])):
+        return ("libsimplicity-rejects", "libsimplicity rejects the serialised program with error -%d" % (cpart[0] - 10))
+    return None
+
+
 def finding_match(c, r, cls):
     d = parse_result(r)
     if cls == "amr-differs+ihr-equal-children-differ" and d.get("coll") == 1 and ihr_collision(c.meta):
@@ -890,6 +960,8 @@ def run(rep, tier, rng):
         "python reference tools/props/codec_common.py (assembler/disassembler/linearisation), jet codes read from the implementation",
         "final arrows of every node are taken from the implementation (harness `prog arrows`): type inference is C04's subject",
         "identity hashes are represented by structural keys (kind, children's keys, payload; root arrow): hash collisions are not modelled",
+        "roots comparison (kind rr): decoded program built in Coq from the original and its structural sharing keys, typed by C04's reference "
+        "inference (Infer/Infer.v), hashed with the Coq SHA-256 of C09 (Uint63 primitives under vm_compute); jet types read from the implementation",
     ]
     binary, out = vplib.harness_build("debug", crate=CRATE)
     if binary is None:
@@ -899,16 +971,34 @@ def run(rep, tier, rng):
         _JT[fam] = cc.jet_table(binary, fam, rep.workdir())
     _JIDX.update(jidx)
     add_model_exprs(cases)
-    impl, model = cc.eval_cases(rep, binary, "c01", cases, IMPORTS, _JT, tag="c01", batch=40)
+    impl, model = cc.eval_cases(rep, binary, "c01", cases, IMPORTS, _JT, tag="c01", batch=24)
     impl_proj = {cid: project(r) for cid, r in impl.items()}
     full = dict(impl)
     pfail, mism = vplib.decide(rep, cases, impl_proj, model, lambda c, _r: prop_check(c, full.get(c.cid)),
                                lambda c, _r, cls: finding_match(c, full.get(c.cid), cls),
                                lambda c, _r: nontrivial(c, full.get(c.cid)),
                                what="correspondence Codec/Run.v (linearise, enc_prog, witness stream) vs encode_program/encode_witness")
+    # roots of the decoded program: Coq (reference inference + SHA-256) vs implementation vs libsimplicity
+    rcases = roots_cases(cases, full, tier)
+    rimpl, rmodel = cc.eval_cases(rep, binary, "c01", rcases, IMPORTS + ["Codec.RunRoots"], _JT, tag="c01rr", batch=max(1, (len(rcases) + 15) // 16))
+    rproj = {cid: (cc.parse_rr(r).get("model_view", r) if isinstance(r, list) else r) for cid, r in rimpl.items()}
+    rfull = dict(rimpl)
+    pf2, _m2 = vplib.decide(rep, rcases, rproj, rmodel, lambda c, _r: rr_check(c, rfull.get(c.cid)), None, None,
+                            what="correspondence Codec/RunRoots.v (decoded program, C04 reference inference, SHA-256 CMR/IHR/AMR of every node) vs RedeemNode::decode")
+    pfail = list(pfail) + list(pf2)
+    three = sum(1 for c in rcases if isinstance(rfull.get(c.cid), list) and cc.parse_rr(rfull[c.cid]).get("c", [2])[:1] == [1])
+    rep.coverage["roots_comparison"] = {"cases": len(rcases), "nodes": sum(len(cc.parse_rr(rfull[c.cid]).get("nodes", [])) for c in rcases if isinstance(rfull.get(c.cid), list)),
+                                        "three_way_with_libsimplicity": three,
+                                        "note": "sample of the redemption-time cases (per-family limits %s); every node of the decoded program: CMR, IHR, AMR, arrow" % json.dumps(_RR_LIMIT[tier])}
     rep.coverage["rule"] = ("type-directed random programs 1 -> 1 (Core / Elements jets, witnesses, hidden branches, disconnect, fail, words), "
                             "the same with sub-DAGs duplicated as separate nodes, hand-written shapes, and the family of identity-hash-equal "
-                            "nodes with differently typed children; each at redemption time (all witnesses populated) and commitment time "
+                            "nodes with differently typed children; witness nodes whose target type is PINNED by a consumer (without it the "
+                            "principal target of nearly every generated witness is the unit type): family `pin` (random programs, pinned "
+                            "witnesses) and `wpad` (witness types with padding inside products at several depths and bit offsets, random / "
+                            "all-left / all-right / alternating values); every Core and Elements jet once (`jet1`); each at redemption time "
+                            "(all witnesses populated; construction-time witnesses built from explicit Value constructors, not by the "
+                            "library's witness decoder; written bytes compared with the python reference, values read back compared with "
+                            "the intended typed tree through as_left/as_right/as_product, iter_compact and iter_padded) and commitment time "
                             "(witness/disconnect-containing sub-expressions unshared, disconnect branches optionally absent).  Distinct = distinct "
                             "(time, program bytes, witness bytes); non-trivial = at least 4 nodes and (a shared node or a non-empty witness stream)")
     rep.coverage["generated"] = histogram(cases, impl)
@@ -948,5 +1038,9 @@ def replay(obj):
     res = vplib.run_harness(binary, "c01", ["%s %s %s" % (c["id"], c["kind"], c["harness_args"])], workdir=rep.workdir())
     r = res.get(c["id"])
     print("implementation:", r)
-    print("parsed        :", {k: v for k, v in parse_result(r).items() if k not in ("dnodes",)})
+    if c["kind"] == "rr":
+        d = cc.parse_rr(r)
+        print("parsed        :", {"status": d.get("status"), "nodes": len(d.get("nodes", [])), "libsimplicity": (d.get("c") or [None])[0]})
+    else:
+        print("parsed        :", {k: v for k, v in parse_result(r).items() if k not in ("dnodes",)})
     return 0
